@@ -225,6 +225,8 @@ theorem connStep_step (n : Net) (op : Op) : ConnStep n (step n op).1 := by
   have r : ∀ j (a : Node), ConnShr j a a := F.refl
   cases op with
   | enableUser y u => exact connStep_of_connShr (F.toPre.enableUser n y u (fun a => r y a)) (step_nextId_mono n (.enableUser y u))
+  | addUserBypass y u p adm =>
+    exact connStep_of_connShr (F.toPre.addUserBypass n y u p adm (fun a _ => r y a)) (step_nextId_mono n (.addUserBypass y u p adm))
   | localLogin y u p => simp only [step]; rw [opLocalLogin_fst]; exact connStep_localLogin n y u p
   | localLogout y => exact connStep_of_connShr (F.localLogout n y) (step_nextId_mono n (.localLogout y))
   | tick => exact connStep_of_connShr (F.tick n) (step_nextId_mono n .tick)
